@@ -340,9 +340,11 @@ impl Version {
         let mut input = input.as_ref();
 
         if input.len() > MAX_LENGTH {
+            // Point at the last character, which may be several bytes long.
+            let last_char = input.char_indices().next_back().map_or(0, |(i, _)| i);
             return Err(SemverError {
                 input: input.into(),
-                span: (input.len() - 1, 0).into(),
+                span: (last_char, 0).into(),
                 kind: SemverErrorKind::MaxLengthError,
             });
         }
